@@ -87,6 +87,8 @@ def verdict(mut, same_class=False):
         out = r.toJson()
     except Exception as e:
         return "accepted-but-cannot-reserialise:" + type(e).__name__
+    if set(mut.keys()) != set(out.keys()):
+        return "accepted-with-foreign-top-level-keys"
     if same_class:
         return ""
     if not jeq(out["type"], mut["type"]):
